@@ -37,6 +37,7 @@ DEFAULT_CFG = {
     'names': 'plain',
     'probe_frac': 0.3,
     'async_prob': 0.4,
+    'ports_exact_prob': 0.3,
     'cycles': (1, 12),
     'rom_aw_max': 5,
     'two_write_ports': 0.3,
@@ -345,6 +346,8 @@ class _G(object):
             bw = self.width()
         m = {'name': self.name('mem'), 'bw': bw, 'aw': aw,
              'async': rng.random() < cfg['async_prob'], 'rom': None}
+        if cfg.get('ports_exact_prob') and rng.random() < cfg['ports_exact_prob']:
+            m['ports_exact'] = True     # declared with max_read/write_ports = the ports it has
         if rom:
             kind = rng.choice(['list', 'dict', 'func'])
             size = 1 << aw
@@ -520,3 +523,61 @@ def gen_init(rng, script, allow_default=True):
             if room >= 2:
                 default = rng.randrange(2, 1 << min(room, 8))
     return {'regs': regs, 'mems': mems, 'default': default}
+
+
+def add_late_cone(rng, script, with_mem=True):
+    """-> (script2, stage): script2 is script plus a small cone added AFTER the design was
+    complete (a user exports or simulates a design, then keeps building on the same Block):
+    an Input, a Register, an Output, and possibly a memory with one read and one write port,
+    reading one existing wire. stage = the sizes of the original design inside script2."""
+    import copy
+    s = copy.deepcopy(script)
+    stage = {'mems': len(s['mems']), 'wires': len(s['wires']), 'nets': len(s['nets'])}
+    names = {w['n'] for w in s['wires']}
+    cands = [w for w in s['wires'] if w['k'] in 'IWR' and w['w'] <= 40]
+    if not cands or any(n.startswith('late_') for n in names):
+        return None, None
+    x = rng.choice(cands)
+    w = x['w']
+
+    def wire(kind, width, name, **kw):
+        d = {'n': name, 'k': kind, 'w': width}
+        d.update(kw)
+        s['wires'].append(d)
+        return name
+    li = wire('I', w, 'late_i')
+    lr = wire('R', w, 'late_r', rv=rng.choice([None, 0, rand_val(rng, w)]))
+    t1 = wire('W', w, 'late_t1')
+    t2 = wire('W', w, 'late_t2')
+    lo = wire('O', w, 'late_o')
+    s['nets'].append({'op': '^', 'p': None, 'a': [li, x['n']], 'd': [t1]})
+    s['nets'].append({'op': 'r', 'p': None, 'a': [t1], 'd': [lr]})
+    s['nets'].append({'op': '|', 'p': None, 'a': [lr, li], 'd': [t2]})
+    s['nets'].append({'op': 'w', 'p': None, 'a': [t2], 'd': [lo]})
+    if with_mem and rng.random() < 0.5:
+        mi = len(s['mems'])
+        s['mems'].append({'bw': w, 'aw': 2, 'name': 'late_mem', 'async': rng.random() < 0.5})
+        la = wire('I', 2, 'late_a')
+        lwe = wire('I', 1, 'late_we')
+        md = wire('W', w, 'late_md')
+        mo = wire('O', w, 'late_mo')
+        s['nets'].append({'op': 'm', 'p': mi, 'a': [la], 'd': [md]})
+        s['nets'].append({'op': '@', 'p': mi, 'a': [la, t1, lwe], 'd': []})
+        s['nets'].append({'op': 'w', 'p': None, 'a': [md], 'd': [mo]})
+    return s, stage
+
+
+def restage(script):
+    """The stage sizes of a (possibly shrunk) script that carries a late cone, or None."""
+    late = {w['n'] for w in script['wires'] if str(w['n']).startswith('late_')}
+    if not late:
+        return None
+    nw = sum(1 for w in script['wires'] if w['n'] not in late)
+    nn = sum(1 for n in script['nets'] if not (set(n['a']) | set(n['d'])) & late)
+    nm = sum(1 for m in script['mems'] if m.get('name') != 'late_mem')
+    # the late part must still be a suffix of each list
+    if any(w['n'] in late for w in script['wires'][:nw]) or \
+            any((set(n['a']) | set(n['d'])) & late for n in script['nets'][:nn]) or \
+            any(m.get('name') == 'late_mem' for m in script['mems'][:nm]):
+        return None
+    return {'mems': nm, 'wires': nw, 'nets': nn}
